@@ -27,7 +27,7 @@ func init() { Register("C11", "exploration", checkC11) }
 var c11Kinds = []string{"deal-bitflip", "deal-truncated", "deal-10-bytes", "deal-1-byte", "deal-9-bytes", "deal-to-wrong-key", "deal-from-other-polynomial", "deal-share-off-polynomial", "commitments-shortened", "commitments-lengthened", "response-turned-into-complaint", "response-turned-into-signed-complaint"}
 
 func checkC11(c *Ctx) {
-	c.Rule = "full key generations in which the operator driver rewrites one dealer's result between its machine and its node: deal ciphertext bit-flipped / truncated / cut to 10 bytes, deal re-encrypted to another participant's key, a self-consistent deal from a second kyber dealer with the dealer's long-term key but fresh coefficients, broadcast commitment list shortened / lengthened, a response turned into a complaint; every (dealer, victim) pair, all (n,t) with n<=3 (quick) / n<=4 (thorough), random delivery. Oracle at quiescence: the victim's machine answered the responses step with the error event, no node is signing-ready and every node is in a cancelled state, no machine stores a keyring for the round; on any signing-ready round the C02 invariant must hold. A third of the runs: the victim's operations are stamped two minutes ahead of the other nodes' clocks. Honest control runs must reach signing-ready. distinct = distinct (n,t,kind,dealer,victim)"
+	c.Rule = "full key generations in which the operator driver rewrites one dealer's result between its machine and its node: deal ciphertext bit-flipped / truncated / cut to 10 bytes, deal re-encrypted to another participant's key, a self-consistent deal from a second kyber dealer with the dealer's long-term key but fresh coefficients, broadcast commitment list shortened / lengthened, a response turned into a complaint; every (dealer, victim) pair, all (n,t) with n<=3 (quick) / n<=4 (thorough), random delivery. Oracle at quiescence: the victim's machine answered the responses step with the error event, no node is signing-ready and every node is in a cancelled state, no machine stores a keyring for the round; on any signing-ready round the C02 invariant must hold. A third of the runs: the victim's operations are stamped two minutes ahead of the other nodes' clocks. Every call into a machine runs under the hang observation (a machine that never answers is a violation). Honest control runs must reach signing-ready. distinct = distinct (n,t,kind,dealer,victim)"
 	c.Assumptions = []string{"the victim's long-term key is re-derived from its mnemonic (validated against GetPubKey) to re-encrypt deals", "kyber's own dealer is used to build the contradicting deal"}
 	type job struct {
 		n, t, D, V int
@@ -245,6 +245,32 @@ func runC11(c *Ctx, n, t, D, V int, kind string, seed uint64) {
 		}
 		wit["victims_operations_stamped_two_minutes_ahead"] = true
 		c.Add("runs_with_the_victims_clock_ahead", 1)
+	}
+	if V >= 0 && V < n {
+		// the victim's machine must ANSWER the operation that carries the bad deal (with its error report): a
+		// call that never returns is observed (goroutine parked on a mutex for good) and reported
+		prev := w.ColdHook
+		hangs := map[int]bool{}
+		w.ColdHook = func(nd *world.Node, op *types.Operation) (*types.Operation, error) {
+			if prev != nil {
+				if r, err := prev(nd, op); r != nil || err != nil {
+					return r, err
+				}
+			}
+			if hangs[nd.Idx] {
+				return nil, fmt.Errorf("the machine of %s does not answer", nd.Name)
+			}
+			var r *types.Operation
+			var err error
+			hung, stk := runOrHang(func() { r, err = w.ColdResult(nd, op, world.UseOpLog) })
+			if hung {
+				hangs[nd.Idx] = true
+				hw := map[string]interface{}{"case": wit, "stack": trunc(stk, 1500)}
+				c.Violate("C11/machine-never-answers", fmt.Sprintf("after %s by dealer %d the machine of participant %d never returns from its %s operation (parked on a mutex for good): no error report can be produced", kind, D, nd.Idx, op.Type), hw)
+				return nil, fmt.Errorf("the machine of %s does not answer", nd.Name)
+			}
+			return r, err
+		}
 	}
 	ce.Round, err = w.StartDKG(0, t, now())
 	if err != nil {
